@@ -11,11 +11,14 @@
      mode        rel_value_spec: new index = (old index + step) mod n
      enter/leave count_step: two counters, reset to zero, caller-supplied totals win
      meter       meter_wf: start and end recorded, start <= end; start = last reset, end = last operation
-     publication version_ok: version = hash content; receipt state machine NO_SIGNAL -> ACCEPTED/REJECTED *)
+     publication version_ok: version = hash content; receipt state machine NO_SIGNAL -> ACCEPTED/REJECTED
+     constructors every resource of a model holds exactly the records / the last value configured for it (route)
+     record CRUD  the listed records stay key-sorted and duplicate free and are, as a map, the finite-map specification *)
 From SC Require Import Base.Prelude Gen.Units Traits.Str Traits.StrProofs
   Traits.Parent Traits.ParentProofs Traits.Vending Traits.VendingProofs Traits.FanSpeed Traits.FanSpeedProofs
   Traits.ModeTrait Traits.ModeTraitProofs Traits.EnterLeave Traits.EnterLeaveProofs Traits.Meter Traits.MeterProofs
-  Traits.Publication Traits.PublicationProofs.
+  Traits.Publication Traits.PublicationProofs Traits.Options Traits.OptionsProofs Traits.Store Traits.StoreProofs
+  Traits.VendingStore Traits.VendingStoreProofs Traits.FanMask Traits.FanMaskProofs.
 From Coq Require Import QArith.
 Local Open Scope string_scope.
 Local Open Scope Z_scope.
@@ -285,6 +288,156 @@ Print Assumptions C20_publication_v0_refuted.
 Example C20_nonvacuous_publication :
   let hash := fun c : content => let '(a, b, _, _) := c in append a b in
   exists p, pub_run hash None [(PCreate (mkPub "p" "" "x" "" (Some (mkAud "d" 0 "" None)) None), 1);
-                               (PAck "p" "px" ACCEPTED "" false, 2); (PUpdate (mkPub "p" "" "y" "" None None) 1 "px", 3)] = Some p
+                               (PAck "p" "px" ACCEPTED "" false, 2); (PUpdate (mkPub "p" "" "y" "" None None) (Some pm_only_body) "px", 3)] = Some p
             /\ p_version p = "py" /\ acked p = false /\ p_ptime p = Some 3.
 Proof. eexists. repeat split. Qed.
+
+(* masked updates (every subset of the paths, nil mask, nested audience paths), deletes: along every history,
+   every successful create/update stores a publication whose version is the hash of its content, and an
+   acknowledgement naming any other version than the hash of the stored content is refused with Aborted (10)
+   and changes nothing *)
+Theorem C20_publication_history : forall (hash : content -> string) ops s,
+  version_ok hash s -> history_law hash s ops.
+Proof. intros hash ops s. exact (pub_history hash ops s). Qed.
+Print Assumptions C20_publication_history.
+
+Theorem C20_publication_masked_fields : forall k old p, pm_empty k = false ->
+  p_body (merge_pub (Some k) old p) = (if k_body k then p_body p else p_body old) /\
+  p_media (merge_pub (Some k) old p) = (if k_media k then p_media p else p_media old) /\
+  p_id (merge_pub (Some k) old p) = (if k_id k then p_id p else p_id old) /\
+  (k_aud k = false -> k_aname k = true -> forall sa, p_aud p = Some sa ->
+     exists a, p_aud (merge_pub (Some k) old p) = Some a /\ a_name a = a_name sa) /\
+  (k_aud k = false -> k_aname k = false ->
+     match p_aud old with Some da => exists a, p_aud (merge_pub (Some k) old p) = Some a /\ a_name a = a_name da
+                        | None => True end).
+Proof. exact merge_pub_fields. Qed.
+Print Assumptions C20_publication_masked_fields.
+
+(* the version a client saw before a content-changing update (any mask) is refused afterwards *)
+Theorem C20_publication_stale_ack_refused : forall (hash : content -> string) now now' old p mask v n id receipt reason allow,
+  (forall a b, hash a = hash b -> a = b) -> version_ok hash (Some old) ->
+  pub_step hash now (Some old) (PUpdate p mask v) = (POk n, Some n) ->
+  content_of n <> content_of old -> id <> "" -> p_version old <> "" ->
+  pub_step hash now' (Some n) (PAck id (p_version old) receipt reason allow) = (PErr 10, Some n).
+Proof. exact stale_ack_after_update. Qed.
+Print Assumptions C20_publication_stale_ack_refused.
+
+Example C20_nonvacuous_publication_masked :
+  let hash := fun c : content => let '(a, b, m, n) := c in append a (append b (append m n)) in
+  let old := computed hash 1 (mkPub "p" "" "x" "t" (Some (mkAud "alice" 0 "" None)) None) in
+  exists n, pub_step hash 2 (Some old) (PUpdate (mkPub "p" "" "" "" (Some (mkAud "bob" 0 "" None)) None) (Some pm_aname) "")
+            = (POk n, Some n) /\ p_version n = "pxtbob" /\ p_version old = "pxtalice" /\ p_body n = "x"
+            /\ pub_step hash 3 (Some n) (PAck "p" "pxtalice" ACCEPTED "" false) = (PErr 10, Some n).
+Proof. eexists. repeat split. Qed.
+
+(* ================= constructors with options ================= *)
+
+(* the per-resource option lists the constructors build by appending are, for every option list, the routed
+   lists: plain options to every resource, targeted ones to their resource only, in argument order *)
+Theorem C20_options_routing : forall nres opts,
+  calc_args nres opts = map (fun r => route r opts) (seq 0 nres).
+Proof. exact calc_args_is_route. Qed.
+Print Assumptions C20_options_routing.
+
+(* a well-formed configuration never panics and every resource holds exactly what was configured for it *)
+Theorem C20_constructor_uses_configuration : forall nres dflt opts, config_wf nres (dflt ++ opts) = true ->
+  new_model_code nres dflt opts = Some (map (fun r => resource_of (route r (dflt ++ opts))) (seq 0 nres)) /\
+  forall r, In r (seq 0 nres) ->
+    (forall id v, lookup id (rs_records (resource_of (route r (dflt ++ opts)))) = Some v <-> In (OInitRecord id v) (route r (dflt ++ opts))) /\
+    rs_value (resource_of (route r (dflt ++ opts))) = last_value None (route r (dflt ++ opts)).
+Proof.
+  intros nres dflt opts Hwf. split; [now apply new_model_configured|].
+  intros r Hr. split; [|reflexivity]. intros id v. apply resource_has_configured.
+  unfold config_wf in Hwf. rewrite forallb_forall in Hwf. now apply Hwf.
+Qed.
+Print Assumptions C20_constructor_uses_configuration.
+
+Theorem C20_constructor_plain_options_irrelevant : forall r k opts1 opts2,
+  resource_of (route r (opts1 ++ MAll (OPlain k) :: opts2)) = resource_of (route r (opts1 ++ opts2)).
+Proof. exact plain_options_do_not_matter. Qed.
+Print Assumptions C20_constructor_plain_options_irrelevant.
+
+Theorem C20_constructor_duplicate_panics : forall nres dflt opts, config_wf nres (dflt ++ opts) = false ->
+  new_model_code nres dflt opts = None.
+Proof. exact new_model_duplicate_panics. Qed.
+Print Assumptions C20_constructor_duplicate_panics.
+
+Example C20_nonvacuous_constructor :
+  let opts := [MAll (OPlain 0); MTarget 1 [OInitRecord "water" "c"]; MAll (OPlain 1); MAll (OPlain 2);
+               MTarget 0 [OInitRecord "water" "s"; OInitRecord "milk" "m"]] in
+  config_wf 2 opts = true /\
+  new_model_code 2 [] opts = Some [mkRS [("water", "s"); ("milk", "m")] None; mkRS [("water", "c")] None].
+Proof. split; reflexivity. Qed.
+
+(* ================= vending record CRUD ================= *)
+
+(* every sequence of Create / masked Update / Delete on a record collection: the listed records stay strictly
+   key-sorted (sorted, duplicate free) and, as a map, equal the finite-map specification *)
+Theorem C20_store_sequences : forall (R M : Type) (merge : M -> R -> R -> R) (mbad : M -> bool) ops (s : store R),
+  store_wf s = true ->
+  store_wf (srun merge mbad s ops) = true /\
+  forall k, sfind k (srun merge mbad s ops) = frun merge mbad (fun k => sfind k s) ops k.
+Proof. intros R M merge mbad ops s. exact (store_sequences R M merge mbad ops s). Qed.
+Print Assumptions C20_store_sequences.
+
+Theorem C20_vending_store_sequences : forall ops s, vstate_wf s = true -> vstate_wf (vstore_run s ops) = true.
+Proof. exact vstore_sequences. Qed.
+Print Assumptions C20_vending_store_sequences.
+
+(* no stock / consumable operation panics or answers (nil, nil), except the documented delete with allow_missing *)
+Theorem C20_vending_store_never_panics : forall s o, vres_fine o (fst (vstep s o)).
+Proof. exact vstep_fine. Qed.
+Print Assumptions C20_vending_store_never_panics.
+
+Theorem C20_vending_dispense_frame : forall s name q, vstate_wf s = true ->
+  let s' := snd (vstep s (VDispense name q)) in
+  snd s' = snd s /\
+  (forall k, k <> name -> sfind k (fst s') = sfind k (fst s)) /\
+  sfind name (fst s') = snd (dispense (sfind name (fst s)) q) /\
+  (forall k, (sfind k (fst s') = None <-> sfind k (fst s) = None)).
+Proof. exact vstep_dispense_frame. Qed.
+Print Assumptions C20_vending_dispense_frame.
+
+Theorem C20_vending_store_new : forall stocks cs, NoDup (map fst stocks) -> NoDup (map fst cs) ->
+  vstate_wf (vstore_new stocks cs) = true /\
+  (forall k v, In (k, v) stocks -> sfind k (fst (vstore_new stocks cs)) = Some v) /\
+  (forall k v, In (k, v) cs -> sfind k (snd (vstore_new stocks cs)) = Some v) /\
+  (forall k, sfind k (fst (vstore_new stocks cs)) <> None -> In k (map fst stocks)) /\
+  (forall k, sfind k (snd (vstore_new stocks cs)) <> None -> In k (map fst cs)).
+Proof. exact vstore_new_configured. Qed.
+Print Assumptions C20_vending_store_new.
+
+Theorem C20_vending_masked_update_frame : forall k old new, sm_empty k = false ->
+  (sk_used k = false -> s_used (merge_stock (Some k) old new) = s_used old) /\
+  (sk_rem k = false -> s_rem (merge_stock (Some k) old new) = s_rem old) /\
+  (sk_last k = false -> s_last (merge_stock (Some k) old new) = s_last old) /\
+  (sk_disp k = false -> s_dispensing (merge_stock (Some k) old new) = s_dispensing old).
+Proof. exact merge_stock_frame. Qed.
+Print Assumptions C20_vending_masked_update_frame.
+
+Example C20_nonvacuous_vending_store :
+  let s0 := vstore_new [("water", mkStock (Some (mkQty 3 1%Q)) None None false)] [("water", mkCons "W" "")] in
+  vstate_wf s0 = true /\
+  map fst (fst (vstore_run s0 [VInv (SCreate "coffee" "" (mkStock None None None false));
+                               VInv (SUpdate "water" (mkStock None (Some (mkQty 3 9%Q)) None true) (Some (mkSM false true false false false false)));
+                               VDispense "water" (mkQty 3 2%Q); VCons (SDelete "water" false);
+                               VInv (SCreate "" "gen-1" (mkStock None None None false))]))
+  = ["coffee"; "gen-1"; "water"].
+Proof. split; vm_compute; reflexivity. Qed.
+
+(* ================= fan speed: Model.UpdateFanSpeed with an update mask ================= *)
+
+Theorem C20_fan_masked_sequences : forall ps ops init, presets_wf ps = true -> fan_consistent ps init = true ->
+  fan_consistent ps (fan_run_masked ps init ops) = true.
+Proof. exact fan_masked_sequences. Qed.
+Print Assumptions C20_fan_masked_sequences.
+
+Theorem C20_fan_masked_never_panics : forall ps old req m, fst (fan_update_masked ps old req m) <> FPanic.
+Proof. exact fan_update_masked_never_panics. Qed.
+Print Assumptions C20_fan_masked_never_panics.
+
+Example C20_nonvacuous_fan_masked :
+  fan_run_masked default_presets (mkFan 0 "off" 0 1)
+    [(mkFan 40 "high" 9 2, Some (mkFM true false false false false)); (mkFan 1 "" 1 2, Some (mkFM false false true true false))]
+  = mkFan 15 "low" 1 2.
+Proof. reflexivity. Qed.
